@@ -231,3 +231,63 @@ Section FailStop.
     destruct (open_io cx (fail_on bad (img_fetch img)) r) as [x|e|k]; [elim (Hno x eq_refl)|eauto|elim (Hnc k eq_refl)].
   Qed.
 End FailStop.
+
+(** * C20: the open depends on nothing but the windows it requests *)
+Lemma walk_agree (recW : N -> N -> outcome (list (N * N))) (recF recI : N -> N -> list (N * (N * N)) -> outcome (list (N * (N * N)))) leaf_off r :
+  forall es ws, walk_windows recW leaf_off r es = Ok ws ->
+  (forall e lo wl, In e es -> recW lo (e_len e) = Ok wl -> incl wl ws -> forall a, recF lo (e_len e) a = recI lo (e_len e) a) ->
+  forall acc, walk_entries recF leaf_off r es acc = walk_entries recI leaf_off r es acc.
+Proof.
+  induction es as [|e rest IH]; intros ws H Hsub acc; [reflexivity|]. cbn [walk_windows] in H. cbn [walk_entries].
+  destruct (e_run e =? 0).
+  - destruct (range_end_inc r <? e_id e).
+    + apply (IH ws H). intros e' lo wl Hin. apply Hsub. now right.
+    + destruct (cadd64 leaf_off (e_off e)) as [lo| |]; cbn [bind] in *; try discriminate.
+      destruct (recW lo (e_len e)) as [w1| |] eqn:Er; cbn [bind] in H; try discriminate.
+      destruct (walk_windows recW leaf_off r rest) as [w2| |] eqn:Ew; cbn [bind] in H; try discriminate.
+      injection H as <-.
+      rewrite (Hsub e lo w1 (or_introl eq_refl) Er (incl_appl w2 (incl_refl w1)) acc).
+      destruct (recI lo (e_len e) acc); cbn [bind]; try reflexivity.
+      apply (IH w2 eq_refl). intros e' lo' wl Hin Hr Hincl. apply (Hsub e' lo' wl); [now right|exact Hr|]. now apply incl_appr.
+  - apply (IH ws H). intros e' lo wl Hin. apply Hsub. now right.
+Qed.
+
+Section Lazy.
+  Context (cx : ctx) (bad : N -> N -> bool).
+
+  Lemma read_dir_io_only_windows img : forall fuel c off len leaf_off r ws,
+    dir_windows cx fuel c img off len leaf_off r = Ok ws -> (forall w, In w ws -> bad (fst w) (snd w) = false) ->
+    forall acc, read_dir_io cx (fail_on bad (img_fetch img)) fuel c off len leaf_off r acc = read_dir_io cx (img_fetch img) fuel c off len leaf_off r acc.
+  Proof.
+    induction fuel as [|f IH]; intros c off len leaf_off r ws H Hok acc; [reflexivity|].
+    cbn [dir_windows] in H. cbn [read_dir_io].
+    destruct (decode_dir cx c (section img off len)) as [es| |] eqn:Ed; cbn [bind] in H; try discriminate.
+    destruct (walk_windows _ leaf_off r es) as [ws'| |] eqn:Ew; cbn [bind] in H; try discriminate.
+    injection H as <-.
+    pose proof (Hok (off, len) (or_introl eq_refl)) as B0. cbn [fst snd] in B0. unfold fail_on at 1. rewrite B0. unfold img_fetch at 1 3. cbn [bind]. rewrite Ed. cbn [bind].
+    apply (walk_agree _ _ _ leaf_off r es ws' Ew). intros e lo wl Hin Hr Hincl a.
+    apply (IH c lo (e_len e) leaf_off r wl Hr). intros w Hw. apply Hok. right. now apply Hincl.
+  Qed.
+
+  (** failing (or altering) anything outside the requested windows does not change the outcome of the open *)
+  Theorem open_io_only_windows img r ws : header_bytes = 127 -> open_windows cx img r = Ok ws ->
+    (forall w, In w ws -> bad (fst w) (snd w) = false) ->
+    open_io cx (fail_on bad (img_fetch img)) r = open_io cx (img_fetch img) r.
+  Proof.
+    intros Hhb Hw Hok. unfold open_windows in Hw. unfold open_io.
+    pose proof (decode_header_ideal img Hhb) as Hd. cbn [bind img_fetch] in Hd.
+    destruct (decode_header img) as [[h' x']|e'|c']; cbn [bind] in Hw; try discriminate.
+    destruct (dir_windows cx (depth_fuel_of max_dir_depth) (h_icomp h') img (h_root_off h') (h_root_len h') (h_leaf_off h') r) as [dws| |] eqn:Edw;
+      cbn [bind] in Hw; try discriminate.
+    injection Hw as <-.
+    pose proof (Hok (0, header_bytes) (or_introl eq_refl)) as B0. cbn [fst snd] in B0. unfold fail_on at 1. rewrite B0. unfold img_fetch at 1 4. cbn [bind].
+    destruct (decode_header (section img 0 header_bytes)) as [[h x]|e|c]; cbn [bind] in *; try discriminate; try reflexivity.
+    injection Hd as ->.
+    assert (Hdirs : forall w, In w dws -> bad (fst w) (snd w) = false) by (intros w Hin; apply Hok; right; apply in_or_app; now right).
+    rewrite (read_dir_io_only_windows img _ _ _ _ _ _ dws Edw Hdirs).
+    destruct (N.eqb_spec (h_meta_len h') 0) as [Em|Em]; [reflexivity|].
+    assert (B1 : bad (h_meta_off h') (h_meta_len h') = false).
+    { apply (Hok (h_meta_off h', h_meta_len h')). right. apply in_or_app. left. destruct (h_meta_len h' =? 0) eqn:E; [apply N.eqb_eq in E; contradiction|now left]. }
+    unfold fail_on at 1. rewrite B1. reflexivity.
+  Qed.
+End Lazy.
